@@ -496,7 +496,7 @@ def updateExposed (ctx : Ctx) (s : Sess) (force : Bool) : List SetCookie :=
 inductive SaveKind where
   | cleared      -- data empty: storage cleared
   | untouched    -- unchanged and no renewal due: nothing written
-  | written      -- storage_->save called
+  | written (token : Bytes)     -- storage_->save called; `token` = the value left in `temp_cookie_`
 deriving DecidableEq, Repr
 
 /-- `session_interface::save` (csrf disabled) -/
@@ -517,7 +517,7 @@ def siSave (ctx : Ctx) (s : Sess) (st : Store) (next : Nat) : Except Err (Store 
         match apiSave ctx st next ar (sessionAgeOf ctx s) (newSession s) s.onServer with
         | .error e => .error e
         | .ok (st1, n1, cs1, temp) =>
-          .ok (st1, n1, cs1 ++ [mkCookie (cookieAgeOf ctx s) temp []] ++ updateExposed ctx s unchanged, .written)
+          .ok (st1, n1, cs1 ++ [mkCookie (cookieAgeOf ctx s) temp []] ++ updateExposed ctx s unchanged, .written temp)
 
 /-! ## one request: load, mutate, save -/
 
